@@ -25,7 +25,7 @@ theorem rotation_orthonormal (sphi cphi slam clam : ℝ) (hp : sphi ^ 2 + cphi ^
       ent (rotation sphi cphi slam clam) 1 i * ent (rotation sphi cphi slam clam) 1 j +
       ent (rotation sphi cphi slam clam) 2 i * ent (rotation sphi cphi slam clam) 2 j = if i = j then 1 else 0 := by
   intro i hi j hj
-  interval_cases i <;> interval_cases j <;> simp [ent, rotation, el] <;>
+  interval_cases i <;> interval_cases j <;> simp [ent, rotation, el, ofNat_real] <;>
     first
     | linear_combination hl
     | linear_combination hp
@@ -43,7 +43,7 @@ theorem rotation_orthonormal_rows (sphi cphi slam clam : ℝ) (hp : sphi ^ 2 + c
       ent (rotation sphi cphi slam clam) i 1 * ent (rotation sphi cphi slam clam) j 1 +
       ent (rotation sphi cphi slam clam) i 2 * ent (rotation sphi cphi slam clam) j 2 = if i = j then 1 else 0 := by
   intro i hi j hj
-  interval_cases i <;> interval_cases j <;> simp [ent, rotation, el] <;>
+  interval_cases i <;> interval_cases j <;> simp [ent, rotation, el, ofNat_real] <;>
     first
     | linear_combination hl
     | linear_combination hp
@@ -59,7 +59,7 @@ theorem rotation_det (sphi cphi slam clam : ℝ) (hp : sphi ^ 2 + cphi ^ 2 = 1) 
     ent M 0 0 * (ent M 1 1 * ent M 2 2 - ent M 1 2 * ent M 2 1)
     - ent M 0 1 * (ent M 1 0 * ent M 2 2 - ent M 1 2 * ent M 2 0)
     + ent M 0 2 * (ent M 1 0 * ent M 2 1 - ent M 1 1 * ent M 2 0) = 1 := by
-  simp [ent, rotation, el]
+  simp [ent, rotation, el, ofNat_real]
   linear_combination (slam ^ 2 + clam ^ 2) * hp + hl
 
 /-- the third column is the outward normal `(cosφ cosλ, cosφ sinλ, sinφ)`; the forward point at height `h` is the
